@@ -89,3 +89,62 @@ def gen_queries(rng, ys, a, b):
     pts = [p for p in pts if p == p]
     rng.shuffle(pts)
     return pts[:60]
+
+
+def gen_weights_near_uniform(rng, n):
+    """Weights within a relative delta of the uniform ones, delta log-uniform over 1e-15 .. 1e-4, renormalised: `1/n * (1 +- delta)`.
+    (A tolerance-based "are these weights equal?" shortcut is exact only if delta is 0; the step function is about the weights
+    that were given.)  Returns (ws, delta, pattern); ws may round to exactly uniform for the smallest deltas (counted by callers)."""
+    delta = 10.0 ** rng.uniform(-15, -4)
+    pattern = rng.choice(["alternate", "signs", "one_up", "ramp", "random"])
+    if pattern == "alternate":
+        s = [1.0 if i % 2 == 0 else -1.0 for i in range(n)]
+    elif pattern == "signs":
+        s = [rng.choice([-1.0, 1.0]) for _ in range(n)]
+    elif pattern == "one_up":
+        s = [0.0] * n
+        s[rng.randrange(n)] = 1.0
+    elif pattern == "ramp":
+        s = [(2.0 * i / (n - 1) - 1.0) if n > 1 else 1.0 for i in range(n)]
+    else:
+        s = [rng.uniform(-1, 1) for _ in range(n)]
+    raw = [(1.0 + delta * x) / n for x in s]
+    tot = math.fsum(raw)
+    ws = [w / tot for w in raw]
+    if abs(math.fsum(ws) - 1.0) > 5e-11 or abs(float(np.sum(np.array(ws))) - 1.0) > 5e-11:
+        return None, delta, pattern
+    return ws, delta, pattern
+
+
+_INT_RANGES = {
+    "counts": (0, 12), "u8": (0, 2 ** 8 - 1), "i8": (-2 ** 7, 2 ** 7 - 1), "u16": (0, 2 ** 16 - 1), "i16": (-2 ** 15, 2 ** 15 - 1),
+    "u32": (0, 2 ** 32 - 1), "i32": (-2 ** 31, 2 ** 31 - 1), "u53": (0, 2 ** 53), "i53": (-2 ** 53, 2 ** 53),
+}
+
+
+def gen_int_values(rng, n, unsorted=True):
+    """Integer-valued finite observations (returned as Python floats, all exactly representable) whose range makes each integer
+    width, signed and unsigned, the narrowest holder in some stratum; values at the ends of the range are over-represented (that is
+    where differences of neighbours leave the dtype).  The sample is left in the order drawn (not ascending unless it cannot be
+    helped), because "the sample happens to be sorted" is a special case of its own.  Returns (values, range_label)."""
+    label = rng.choice(list(_INT_RANGES))
+    lo, hi = _INT_RANGES[label]
+    style = rng.choice(["uniform", "ends", "cluster", "ties"])
+    base = [rng.randint(lo, hi) for _ in range(max(1, n // 3))]
+    vals = []
+    for _ in range(n):
+        if style == "ends" or rng.random() < 0.2:
+            v = rng.choice([lo, hi, lo + 1, hi - 1, lo + (hi - lo) // 2, rng.randint(lo, hi)])
+        elif style == "cluster":
+            v = min(hi, max(lo, rng.choice(base) + rng.randint(-3, 3)))
+        elif style == "ties":
+            v = rng.choice(base)
+        else:
+            v = rng.randint(lo, hi)
+        vals.append(v)
+    if unsorted and n > 1 and len(set(vals)) > 1:
+        for _ in range(20):
+            if any(x > y for x, y in zip(vals, vals[1:])):
+                break
+            rng.shuffle(vals)
+    return [float(v) for v in vals], label
